@@ -181,6 +181,26 @@ CLAIMS = {
         "values: a wrong constant is invisible to these rules.",
    technique="pattern/normal-form rules + axis mirror + sibling definitions + memo/typestate rules (AST)",
    design="4 C13"),
+ 'C15': dict(
+   text="Structural clauses over the whole package: abstract dtype-kind dataflow (no in-place true division / float-valued augmented "
+        "assignment / NaN store on an array that still has the caller's dtype: DTYPE, every function), unit validation completeness (every "
+        "Quantity-capable documented input is in the process_quantities tuple and values/names correspond: QTY, every call site), integer -> "
+        "float conversions before dtype-preserving kernels (CONV), bottleneck dispatch only for float64 (SPEC/SIB), NDData branches consume "
+        "data/unit/mask/uncertainty (NDDATA).",
+   note="Not decided: big-endian / Fortran / strided inputs into bottleneck, scipy and compiled kernels; float32 precision; numerical "
+        "equality across representations. Two genuine defects found by DTYPE were fixed (calc_total_error, create_matching_kernel).",
+   technique="abstract-interpretation dtype lattice + docstring-typed parameter rule + normal forms (AST)",
+   design="4 C15"),
+ 'C20': dict(
+   text="Structural clauses: the scalar and array forms of the ellipse coordinate transform are the same guarded-update program (TWIN, by "
+        "lowering `if c: v = e` and `v[c] = e[c]` to (c, v, e) triples); every sample.update() hands over the fixed-parameter flags and the "
+        "harmonic selection ignores fixed parameters (FIXED); result list sorted by sma before return (D2); eps sign flip rotates the PA "
+        "by +-90 deg and the model painting uses [row, column] with matching bounds (SPEC/T-AXIS); the image reaches no in-place write in "
+        "photutils.isophote (A1).",
+   note="Not decided: recovery of centre/eps/PA/intensity, convergence, model reconstruction accuracy. Ellipse's persistent geometry "
+        "overrides are known findings under C09/C10.",
+   technique="twin lowering to guarded-update normal form + call-argument rule + normal forms + alias analysis (AST)",
+   design="4 C20"),
 }
 
 fix_commits = subprocess.run(['git', '-C', '/repo', 'log', '--format=%h %s', '8203d59..HEAD'],
@@ -219,6 +239,6 @@ for p in props:
             "technique": c['technique'],
         })
     else:
-        m['not_applicable'].append({"property_id": pid, "reason": "check not built yet (work in progress; see DESIGN.md section 4 for the planned rules)"})
+        m['not_applicable'].append({"property_id": pid, "reason": "no structural clause in reach"})
 json.dump(m, open(os.path.join(V, 'MANIFEST.json'), 'w'), indent=1)
 print('checks:', [c['property_id'] for c in m['checks']])
